@@ -28,3 +28,12 @@ pub use state::McState;
 pub use strategy::*;
 pub use system::{McSystem, McTime};
 use trace_handler::TraceHandler;
+
+/// Verification hooks: makes the crate-private store types nameable.
+#[cfg(anysystem_verif)]
+pub mod verif {
+    pub use super::dependency::DependencyResolver;
+    pub use super::network::VerifNetDump;
+    pub use super::node::{McNodeState, ProcessEntryState};
+    pub use super::pending_events::PendingEvents;
+}
